@@ -43,6 +43,22 @@ Section C17.
     table true rs = map (fun j => map (fun x => nth j x d) (table false rs)) (seq 0 n).
   Proof. exact (@table_transposed_columns T). Qed.
 
+  (* pareto_individuals / pareto_front: the queried population's individuals whose recorded front number
+     is 1, in recording order, and their own costs goal by goal *)
+  Theorem C17_pareto_front_spec : forall (d : T) (front1 : rec -> bool) (ngoals : nat) (pid : Z) (rs : list rec),
+    pareto_individuals front1 pid rs = filter front1 (results_population pid rs) /\
+    (forall r, In r (pareto_individuals front1 pid rs) <-> In r (results_population pid rs) /\ front1 r = true) /\
+    length (pareto_front d front1 ngoals pid rs) = ngoals /\
+    (forall j, (j < ngoals)%nat ->
+       nth j (pareto_front d front1 ngoals pid rs) [] = map (cost_at d j) (pareto_individuals front1 pid rs)).
+  Proof. exact (pareto_front_spec ltb). Qed.
+
+  (* pareto_values(): the computed set that performance_measure hands to the indicators *)
+  Theorem C17_pareto_values_spec : forall rs : list rec,
+    ((1 < length (last_population rs))%nat -> pareto_values rs = map r_costs (last_population rs)) /\
+    ((length (last_population rs) <= 1)%nat -> pareto_values rs = []).
+  Proof. exact (@pareto_values_spec T). Qed.
+
   (* the idiom  vs = sort_list(ks, vs); ks.sort()  returns the two components of ONE sorted
      arrangement of the original (key, value) pairs: sorting never re-pairs *)
   Theorem C17_sorted_listing_is_permutation_of_pairs : forall ks vs : list T, length ks = length vs ->
@@ -180,6 +196,8 @@ Print Assumptions C17_population_is_filter.
 Print Assumptions C17_populations_grouping.
 Print Assumptions C17_table_rows_paired.
 Print Assumptions C17_table_transposed_columns.
+Print Assumptions C17_pareto_front_spec.
+Print Assumptions C17_pareto_values_spec.
 Print Assumptions C17_sorted_listing_is_permutation_of_pairs.
 Print Assumptions C17_sorted_listing_exact.
 Print Assumptions C17_goal_on_parameter_pairs.
@@ -215,7 +233,9 @@ Example C17_ex_queries :
   sort_both Z.ltb true [2; 4; 2; -1] [20; 20; 10; 10] = ([-1; 2; 2; 4], [10; 10; 20; 20]) /\
   option_map r_id (find_optimum Z.ltb 0 0 CritAbsent ex_recs) = Some 1%nat /\
   option_map r_id (find_optimum Z.ltb 0 1 CritOther ex_recs) = Some 1%nat /\
-  option_map r_id (find_optimum Z.ltb 0 0 CritOther ex_recs) = Some 0%nat.
+  option_map r_id (find_optimum Z.ltb 0 0 CritOther ex_recs) = Some 0%nat /\
+  pareto_front 0 (fun r => Nat.eqb (r_id r) 2) 2 (-1) ex_recs = [[20]; [7]] /\
+  pareto_values ex_recs = [[20; 1]; [20; 7]].
 Proof. vm_compute. repeat split. Qed.
 
 Definition ex_is (x : qx) (q : Q) : bool := match x with Fin e => Qeq_bool e q | PInf => false end.
